@@ -254,11 +254,12 @@ def argv_from(opts):
     return a
 
 
-def check_run(res, rec_name, opts, printf="{id} {start} {end}", time_format="%S", quiet=False):
+def check_run(res, rec_name, opts, printf="{id} {start} {end}", time_format="%S", quiet=False, tolerate=()):
     if res.outcome != "done":
         return "threads never end (%s)" % res.outcome
-    if res.crashes:
-        return "thread died: %r" % (res.crashes[:1],)
+    crashes = [c for c in res.crashes if c[0] not in tolerate]
+    if crashes:
+        return "thread died: %r" % (crashes[:1],)
     if res.status != 0:
         return "exit status %r (stderr: %s)" % (res.status, res.stderr[:100])
     regs = api_regions(rec_name, params_from(opts))
@@ -438,6 +439,14 @@ def misc(rep, tier):
             msg = "defaults recording produced no detection (harness)"
         if msg:
             rep.violation("cli defaults", msg, {"kind": "climisc", "what": "defaults"})
+    # the region saver cannot write (no such directory): its thread dies, every line is still printed, status 0
+    for rec in ("mono16", "stereo16"):
+        rep.add("evaluations")
+        opts = dict(n=0.02, m=0.3, s=0.02, a=0.01, e=50)
+        res = run_cli(argv_from(opts) + ["-o", "@no_such_dir/ev_{id}.wav"], rec, "wav", wd)
+        msg = check_run(res, rec, opts, tolerate=("RegionSaverWorker",))
+        if msg:
+            rep.violation("cli failing -o rec=%s" % rec, msg[:300], {"kind": "climisc", "what": "bad-o"})
     # a long run: more than 1024 / 2048 detections, ids keep counting
     spec = "L." * 2100
     RECS["many"] = dict(rate=1000, sw=2, ch=1, spec=spec)
@@ -576,6 +585,10 @@ def run(prop, tier):
     for p_ in (["AaA", "AAAA"] if quick else ["A", "AaA", "AAAA", "AaAaA"]):
         for argv_ in ([], ["-o", "@ev_{id}.wav"]):
             tasks.append(("sched", (dict(kind="cli", pattern=p_, observers=[], split="s0", argv=argv_), 1, 0, "sync", None, None)))
+    # an observer that dies (the region saver cannot write): the others still get everything, under every interleaving
+    for p_ in ("AaA", "AAAA"):
+        tasks.append(("sched", (dict(kind="cli", pattern=p_, observers=[], split="s2" if p_ == "AAAA" else "s0", argv=["-o", "@no_such_dir/ev_{id}.wav"],
+                                     tolerate_crash=["RegionSaverWorker"]), 1, 0, "sync", None, None)))
     for part in common.pmap(_dispatch, tasks):
         rep.merge(part)
     if not quick:
